@@ -119,6 +119,17 @@ def sweep(rep: Report, rng: Rng, reps: int, deadline: float):
                 check_one(rep, rng, spec, cfg0, exhaustive=(r % 2 == 0))
 
 
+# (T) harness/translators/plumbing.py → lean/TE/Gen/Plumbing.lean; theorems in lean/TE/Props/C12_Plumb.lean.
+from ..translators import plumbing as plumbing_tr  # noqa: E402
+
+TRUSTED_EXTRA = ["harness/translators/plumbing.py (symbolic execution of update / merge_state / compute of every class) producing "
+                 "lean/TE/Gen/Plumbing.lean; its dynamic cross-check runs in C01"]
+
+
+def translate(rep: Report):
+    plumbing_tr.generate(rep)
+
+
 def run(rep: Report):
     rng = Rng(rep.seed * 1000003 + 12)
     sweep(rep, rng, 4 if rep.tier == "quick" else 30, time.time() + budget(rep.tier, 60, 800))
